@@ -30,23 +30,91 @@ def gen_pairs(seed_, n, cfg):
     return [json.loads(l) for l in out.split("\n") if l.strip()]
 
 
+def add_refs(pairs):
+    """append `rule ref_<name> { <name> }` for every rule name of each generated rules file: the status
+    of every rule is then also observed through a reference by name (which the implementation serves
+    from the per-evaluation rule status cache)"""
+    for c in pairs:
+        names = []
+        for r in c["prog"]["rules"]:
+            if r["n"] not in names:
+                names.append(r["n"])
+        for nm in names:
+            c["prog"]["rules"].append({"n": "ref_" + nm, "w": [], "lets": [], "b": [[{"c": "named", "n": nm, "neg": False}]]})
+    lines = "\n".join(json.dumps({"prog": c["prog"], "doc": None}) for c in pairs)
+    out = gv(["render-many"], input=lines)
+    texts = [json.loads(l)["rules"] for l in out.split("\n") if l.strip()]
+    for c, t in zip(pairs, texts):
+        c["rules"] = t
+    return pairs
+
+
 def split_top(doc, rnd, overlap):
-    """split the top-level map of an abstract document into parameter documents + data"""
+    """split the top-level map of an abstract document into parameter documents + data.
+    overlap: False, "pp" (two parameter documents define the same key) or "pd" (a parameter
+    document and the data do); the second definition gets a different value half of the time and
+    is put at a random position of its map."""
     ks, vs = doc["k"], doc["v"]
     n = len(ks)
-    nparts = rnd.randint(1, 3)
+    nparts = rnd.randint(2, 3) if overlap == "pp" else rnd.randint(1, 3)
     buckets = [[] for _ in range(nparts + 1)]       # last bucket = data
     for i in range(n):
         buckets[rnd.randrange(nparts + 1)].append(i)
     docs = [{"t": "map", "k": [ks[i] for i in b], "v": [vs[i] for i in b]} for b in buckets]
     if overlap and n > 0:
         i = rnd.randrange(n)
-        a, b = rnd.sample(range(nparts + 1), 2) if nparts + 1 >= 2 else (0, 0)
+        if overlap == "pp":
+            a, b = rnd.sample(range(nparts), 2)
+        else:
+            a, b = rnd.randrange(nparts), nparts
+        first = True
         for t in (a, b):
             if ks[i] not in docs[t]["k"]:
-                docs[t]["k"].append(ks[i])
-                docs[t]["v"].append(vs[i])
+                at = rnd.randint(0, len(docs[t]["k"]))
+                v = vs[i] if (first or rnd.random() < 0.5) else mutate_doc(vs[i], rnd)
+                docs[t]["k"].insert(at, ks[i])
+                docs[t]["v"].insert(at, v)
+            first = False
     return docs[:-1], docs[-1]
+
+
+def pick_keys(wd, tag, rules_texts, cands):
+    """per candidate data text: the statuses of all rules of the rules files on it, as one string
+    ("error <exit code>" when the run ends without a report)"""
+    rps = [wd.write("%s/pick_r%d.guard" % (tag, k), t) for k, t in enumerate(rules_texts)]
+    dps = [wd.write("%s/pick_d%d.json" % (tag, k), t) for k, t in enumerate(cands)]
+    keys = []
+    for d in dps:
+        args = ["validate", "--structured", "-o", "json", "-S", "none", "-d", d]
+        for r in rps:
+            args += ["-r", r]
+        rc, so, se = cli.run(args)
+        try:
+            keys.append(json.dumps([[sorted(rep.get("compliant", [])), sorted(rep.get("not_applicable", []))] for rep in json.loads(so)]))
+        except (ValueError, KeyError, TypeError, AttributeError):
+            keys.append("error %d" % rc)
+    return keys
+
+
+def pick_differing(wd, tag, rules_texts, cands, n, rnd, avoid_errors=True):
+    """choose n of the candidate data texts so that the rules come out as differently as possible on
+    them (the statuses only guide the choice of inputs, nothing is judged with them).  Returns
+    indices into cands."""
+    keys = pick_keys(wd, tag, rules_texts, cands)
+    order = list(range(len(cands)))
+    rnd.shuffle(order)
+    if avoid_errors:
+        # an evaluation error aborts the whole run: prefer candidates on which every rules file evaluates
+        order = [q for q in order if not keys[q].startswith("error")] + [q for q in order if keys[q].startswith("error")]
+    picked, seen = [], set()
+    for q in order:
+        if keys[q] not in seen and len(picked) < n:
+            seen.add(keys[q])
+            picked.append(q)
+    for q in order:
+        if len(picked) < n and q not in picked:
+            picked.append(q)
+    return picked
 
 
 def render_docs(docs):
@@ -167,7 +235,35 @@ def assign_pairs_in_order(obs, line):
         s["d"] = d if s["d"] in (0, d) else -1
 
 
-def run_job(wd, i, rules, data, params, mode, entry, params_docs=None):
+def mutate_doc(doc, rnd, depth=0):
+    """a variant of an abstract document: some scalars changed, some entries dropped"""
+    t = doc.get("t")
+    if t == "map":
+        ks, vs = [], []
+        for k, v in zip(doc["k"], doc["v"]):
+            if depth > 0 and rnd.random() < 0.12:
+                continue
+            ks.append(k)
+            vs.append(mutate_doc(v, rnd, depth + 1))
+        return {"t": "map", "k": ks, "v": vs}
+    if t == "list":
+        vs = [mutate_doc(v, rnd, depth + 1) for v in doc["v"] if rnd.random() > 0.12]
+        return {"t": "list", "v": vs}
+    if rnd.random() < 0.35:
+        if t == "int":
+            return {"t": "int", "v": doc["v"] + rnd.choice([-1, 1, 5])}
+        if t == "str":
+            return {"t": "str", "v": doc["v"] + [120]} if rnd.random() < 0.5 else {"t": "str", "v": []}
+        if t == "bool":
+            return {"t": "bool", "v": not doc["v"]}
+        if t == "null":
+            return {"t": "int", "v": 0}
+        if t == "flt":
+            return {"t": "flt", "v": abs(doc["v"]) + 500}
+    return doc
+
+
+def run_job(wd, i, rules, data, params, mode, entry, params_docs=None, events=None):
     """rules: list of dict(parse, prog?, text) ; data: list of dict(load, doc?, text); params: list of texts"""
     rpaths, dpaths, ppaths = [], [], []
     for k, r in enumerate(rules):
@@ -200,7 +296,7 @@ def run_job(wd, i, rules, data, params, mode, entry, params_docs=None):
     for p in ppaths:
         args += ["-i", p]
     args += mode["args"]
-    rc, so, se = cli.run(args, stdin=stdin)
+    rc, so, se = cli.run(args, stdin=stdin, env={"GUARD_VERIF_EVENTS": events} if events else None)
     line = {"i": i, "mode": {"fmt": mode["fmt"], "entry": entry, "shows": mode.get("shows", ["PASS", "FAIL", "SKIP"])},
             "rules": [{"parse": r["parse"], "prog": r.get("prog", {"lets": [], "rules": [], "prules": []})} for r in rules],
             "data": [{"load": d["load"], "doc": d.get("doc", {"t": "null"})} for d in data],
